@@ -33,7 +33,7 @@ func ruleC11Methods(c *ctx.Ctx, r *core.Reporter) {
 	ms := types.NewMethodSet(types.NewPointer(obj.Type()))
 	var sw *switchInfo
 	for _, s := range switchesOf(c, "compiler") {
-		if s.fn == "funcContext.translateExpr" && s.domain == "string" && strings.Contains(strings.Join(s.casePath, "/"), "sel.Kind():types.MethodVal") {
+		if s.fn == "funcContext.translateExpr" && s.domain == "string" && strings.Contains(strings.Join(s.casePath, "/"), "_.Kind():types.MethodVal") {
 			sw = s
 		}
 	}
@@ -110,7 +110,7 @@ func ruleC11Methods(c *ctx.Ctx, r *core.Reporter) {
 	}
 	// templates of Global/Module/Undefined
 	for n, want := range map[string]string{"Global": "$global", "Module": "$module", "Undefined": "undefined"} {
-		t := hasTemplate(c, "funcContext.translateExpr", `inst.Object.Name():"`+n+`"`, func(t *tmpl.Template) bool { return t.Text == want })
+		t := hasTemplate(c, "funcContext.translateExpr", `_.Object.Name():"`+n+`"`, func(t *tmpl.Template) bool { return t.Text == want })
 		r.Check(t != nil, "special-template:"+n, "compiler/expressions.go", "js."+n+" compiles to "+want)
 	}
 }
